@@ -68,6 +68,31 @@ def gen_case(rng):
         f = C.rand_frame(rng, 3, 4, index_kind=ik, min_rows=1, min_cols=1)
         return {'op': 'f_assign_bloc', 'f': f, 'mask': [[rng.random() < 0.4 for _ in f['columns']] for _ in f['index']],
                 'v': rng.choice(ELEMS)}, C.rand_layout(rng, f)
+    if r < 0.74:
+        # astype towards the dtype a multi-column block ALREADY has, addressed through several non-contiguous runs inside that block,
+        # with further addressed columns in later blocks that do need converting (the per-block generator has to skip and resume)
+        nr = rng.randint(1, 3)
+        run = rng.randint(3, 5)
+        tail = rng.randint(1, 3)
+        kind_run, kind_tail = rng.choice([('f', 'i'), ('f', 'i'), ('i', 'b'), ('f', 'b')])          # (never float -> int: truncation is outside the model)
+        cols = [C.rand_column(rng, kind_run, nr) for _ in range(run)]
+        pre = [C.rand_column(rng, kind_tail, nr)] if rng.random() < 0.4 else []
+        post = [C.rand_column(rng, kind_tail if rng.random() < 0.7 else kind_run, nr) for _ in range(tail)]
+        allc = pre + cols + post
+        f = {'index': C.rand_labels(rng, nr, ik), 'columns': C.rand_labels(rng, len(allc), 'str'), 'cols': allc, 'name': ['none']}
+        lay = [[1, rng.choice([1, 2])] for _ in pre] + [[run, 2]] + [[1, rng.choice([1, 2])] for _ in post]
+        inside = sorted(rng.sample(range(run), rng.randint(2, run - 1)))
+        if all(b - a == 1 for a, b in zip(inside, inside[1:])):
+            inside = [0, run - 1]
+        pos = [len(pre) + p for p in inside] + [len(pre) + run + p for p in sorted(rng.sample(range(tail), rng.randint(1, tail)))]
+        if pre and rng.random() < 0.5:
+            pos = [0] + pos
+        to = list(cols[0]['dt'])
+        if rng.random() < 0.3:
+            ck = ['mask', [j in pos for j in range(len(allc))]]
+        else:
+            ck = ['loclist', [f['columns'][p] for p in pos]]
+        return {'op': 'f_astype', 'f': f, 'ck': ck, 'to': to}, lay
     if r < 0.78:
         f = C.rand_frame(rng, 3, 6, kinds='ib', index_kind=ik, min_cols=1)
         to = rng.choice([['f', 64], ['O', 0], ['i', 64]])
